@@ -114,65 +114,27 @@ theorem fix_inverts_build_der (H : Bytes → Bytes) (get : Bytes → Except Err 
     fixLogLeaf get ix = .ok dx :=
   fix_inverts_build H get isPrecert cert chain ix dx hH hget (der_round_trip chain hsz) hi hd
 
-/-! ## the cache never changes what is served -/
+def exH : Bytes → Bytes := fun _ => List.replicate 32 7
+def exCert : Bytes := [1, 2, 3]
+def exChain : List Bytes := [[4, 5], [6]]
 
-/-- **cache ⊆ store is an invariant** of every operation (add, the detached cache fill, eviction, expiry), from the
-empty state, for every interleaving (`ops` is an arbitrary list). -/
-theorem cache_sub_store (ops : List Op) : Inv (run State.init ops) :=
-  inv_run _ _ inv_init
+/-- `inflate` returns exactly the decoded chain of what `get` returned -/
+theorem inflate_ok (get : Bytes → Except Err Bytes) (h : Bytes) (cs : List Bytes) (hi : inflate get h = .ok cs) :
+    (h.length = 0 ∧ cs = []) ∨ (∃ der, get h = .ok der ∧ parseDerChain der = some cs) := by
+  unfold inflate at hi
+  by_cases h0 : h.length = 0
+  · simp only [h0, if_true, Except.ok.injEq] at hi; exact Or.inl ⟨h0, hi.symm⟩
+  · simp only [h0, if_false] at hi
+    cases hg : get h with
+    | error e => simp [hg] at hi
+    | ok der =>
+      simp only [hg] at hi
+      cases hp : parseDerChain der with
+      | none => simp [hp] at hi
+      | some c => simp only [hp, Except.ok.injEq] at hi; subst hi; exact Or.inr ⟨der, rfl, hp⟩
 
-/-- Hence `getByHash` is the store's lookup — for every cache kind, size, TTL, eviction pattern and interleaving. -/
-theorem getByHash_is_store (ops : List Op) (h : Bytes) :
-    getByHash (run State.init ops) {} h =
-      match (run State.init ops).store.lookup h with
-      | some v => .ok v
-      | none => .error .unknownHash :=
-  getByHash_of_inv _ (cache_sub_store ops) h
-
-/-- a chain, once stored, is found under its hash after any further history (de-duplication keeps the first copy) -/
-theorem stored_chain_stays (ops1 ops2 : List Op) (h v : Bytes)
-    (hs : (run State.init ops1).store.lookup h = some v) :
-    getByHash (run (run State.init ops1) ops2) {} h = .ok v := by
-  have hi : Inv (run (run State.init ops1) ops2) := inv_run _ _ (cache_sub_store ops1)
-  rw [getByHash_of_inv _ hi h, store_stable_run _ ops2 h v hs]
-
-/-- the two combined: what a reader gets for a submission made in external-storage mode at any point of any history
-is the in-backend extra data. -/
-theorem served_equals_direct (H : Bytes → Bytes) (ops1 ops2 : List Op) (isPrecert : Bool) (cert : Bytes) (chain : List Bytes)
-    (ix dx : Bytes)
-    (hH : (H (derChain chain)).length ≠ 0)
-    (hfresh : (run State.init ops1).store.lookup (H (derChain chain)) = none ∨
-              (run State.init ops1).store.lookup (H (derChain chain)) = some (derChain chain))
-    (hder : parseDerChain (derChain chain) = some chain)
-    (hi : buildIndirect H isPrecert cert chain = some ix)
-    (hd : buildDirect isPrecert cert chain = some dx) :
-    fixLogLeaf (getByHash (run (run State.init (ops1 ++ [.add (H (derChain chain)) (derChain chain)])) ops2) {}) ix = .ok dx := by
-  apply fix_inverts_build H _ isPrecert cert chain ix dx hH _ hder hi hd
-  apply stored_chain_stays
-  simp only [run, List.foldl_append, List.foldl_cons, List.foldl_nil]
-  have : List.foldl step State.init ops1 = run State.init ops1 := rfl
-  rw [this]
-  rcases hfresh with hn | hs
-  · simp only [step, hn, Option.isSome_none, Bool.false_eq_true, if_false]
-    rw [lookup_cons_eq]; simp
-  · simp only [step, hs, Option.isSome_some, if_true]
-
-/-! ## fault_is_error -/
-
-/-- faults and absences in `getByHash` are errors -/
-theorem getByHash_faults (s : State) (h : Bytes) :
-    (∀ f : Faults, f.cacheGet = true → ∃ e, getByHash s f h = .error e) ∧
-    (∀ f : Faults, f.cacheGet = false → s.cache.lookup h = none → f.storeFind = true → ∃ e, getByHash s f h = .error e) ∧
-    (∀ f : Faults, f.cacheGet = false → s.cache.lookup h = none → f.storeFind = false → s.store.lookup h = none →
-        getByHash s f h = .error .unknownHash) := by
-  refine ⟨?_, ?_, ?_⟩
-  · intro f hf; exact ⟨.cache, by unfold getByHash; simp [hf]⟩
-  · intro f hf hc hs; exact ⟨.storage, by unfold getByHash; simp [hf, hc, hs]⟩
-  · intro f hf hc hs hst; unfold getByHash; simp [hf, hc, hs, hst]
-
-/-- **fault_is_error.** If the extra data is one of the two hash layouts with a non-empty hash and the lookup fails
-(storage or cache error, unknown hash) or returns bytes that do not decode as a chain, the reader gets an error. -/
-theorem fault_is_error (get : Bytes → Except Err Bytes) (extra : Bytes) (h : Bytes) (hne : h.length ≠ 0)
+/-- the generic step: a failing or undecodable lookup result for the embedded hash makes `fixLogLeaf` fail -/
+theorem fixLogLeaf_error_of_bad_lookup (get : Bytes → Except Err Bytes) (extra : Bytes) (h : Bytes) (hne : h.length ≠ 0)
     (hlay : (∃ pre, decPCEH extra = some (pre, h)) ∨ (decPCEH extra = none ∧ decCCH extra = some h))
     (hbad : (∃ e, get h = .error e) ∨ (∃ der, get h = .ok der ∧ parseDerChain der = none)) :
     ∃ e, fixLogLeaf get extra = .error e := by
@@ -187,6 +149,191 @@ theorem fault_is_error (get : Bytes → Except Err Bytes) (extra : Bytes) (h : B
   rcases hlay with ⟨pre, hp⟩ | ⟨hp, hc⟩
   · rw [hp]; simp only [he]; exact ⟨e, rfl⟩
   · rw [hp, hc]; simp only [he]; exact ⟨e, rfl⟩
+
+/-! ## the cache never changes what is served -/
+
+/-- **what the cache holds was stored or submitted under that key** — an invariant of *every* operation, store
+damage included (add, the detached cache fill — enabled only for a pair that was an `add` argument or a row —,
+eviction, expiry, row deleted, row overwritten), from the empty state, for every interleaving. This is the rule the
+driver checks on every observed `cset` / `cget` event. -/
+theorem cache_sub_known (ops : List Op) : InvK (run State.init ops) :=
+  invK_run _ _ invK_init
+
+/-- **cache ⊆ store** for every history without store damage in which each hash has one chain (`c`; content
+addressing). With store damage it is false — the cache may keep the good chain while the row is bad, and which of the
+two a reader gets then depends on cache state: see `cache_state_visible_after_damage` below and `fault_is_error`. -/
+theorem cache_sub_store (c : Bytes → Bytes) (ops : List Op) (ho : ∀ op ∈ ops, op.honest c) : Inv (run State.init ops) :=
+  inv_of c _ (cache_sub_known ops) (invH_run c _ ops ho invK_init (invH_init c))
+
+/-- Hence the lookup is the store's — for every cache kind, size, TTL, eviction pattern and interleaving. -/
+theorem getByHash_is_store (c : Bytes → Bytes) (ops : List Op) (ho : ∀ op ∈ ops, op.honest c) (h : Bytes) :
+    getByHashRaw (run State.init ops) {} h =
+      match (run State.init ops).store.lookup h with
+      | some v => .ok v
+      | none => .error .unknownHash :=
+  getByHashRaw_of_inv _ (cache_sub_store c ops ho) h
+
+/-- a chain, once handed to `storage.Add`, is found under its hash after any further honest history
+(de-duplication keeps the first copy, which is the same chain) -/
+theorem stored_chain_stays (c : Bytes → Bytes) (ops1 ops2 : List Op) (h : Bytes)
+    (ho : ∀ op ∈ ops1 ++ [.add h (c h)] ++ ops2, op.honest c) :
+    getByHashRaw (run State.init (ops1 ++ [.add h (c h)] ++ ops2)) {} h = .ok (c h) := by
+  rw [getByHash_is_store c _ ho h]
+  have hk : (h, c h) ∈ (run State.init (ops1 ++ [.add h (c h)] ++ ops2)).known := by
+    rw [run_append, run_append]
+    have h1 : (h, c h) ∈ (run (run State.init ops1) [.add h (c h)]).known := by
+      simp only [run, List.foldl_cons, List.foldl_nil, step]
+      split <;> exact List.mem_cons_self ..
+    -- `known` only grows
+    have grow : ∀ (s : State) (ops : List Op) p, p ∈ s.known → p ∈ (run s ops).known := by
+      intro s ops p hp
+      induction ops generalizing s with
+      | nil => exact hp
+      | cons op ops ih =>
+        apply ih
+        cases op <;> simp only [step] <;> (try split) <;> first | exact hp | exact List.mem_cons_of_mem _ hp
+    exact grow _ ops2 _ h1
+  have := (invH_run c _ _ ho invK_init (invH_init c)) h (c h) hk
+  rw [this.2]
+
+/-- the two combined: what a reader gets for a submission made in external-storage mode at any point of any honest
+history is the in-backend extra data — whether or not the code re-checks the hash (`check`), as long as `H` is the
+function the keys were made with. -/
+theorem served_equals_direct (check : Bool) (H c : Bytes → Bytes) (ops1 ops2 : List Op) (isPrecert : Bool) (cert : Bytes) (chain : List Bytes)
+    (ix dx : Bytes)
+    (hH : (H (derChain chain)).length ≠ 0)
+    (hc : c (H (derChain chain)) = derChain chain)
+    (ho : ∀ op ∈ ops1 ++ [.add (H (derChain chain)) (c (H (derChain chain)))] ++ ops2, op.honest c)
+    (hder : parseDerChain (derChain chain) = some chain)
+    (hi : buildIndirect H isPrecert cert chain = some ix)
+    (hd : buildDirect isPrecert cert chain = some dx) :
+    fixLogLeaf (getByHash check H (run State.init (ops1 ++ [.add (H (derChain chain)) (c (H (derChain chain)))] ++ ops2)) {}) ix = .ok dx := by
+  apply fix_inverts_build H _ isPrecert cert chain ix dx hH _ hder hi hd
+  unfold getByHash
+  rw [stored_chain_stays c ops1 ops2 _ ho, hc]
+  simp [verified]
+
+/-- `add` (the submission side): a refused submission leaves no trace (the error carries no state); an accepted one
+has its chain in the store — for honest histories, where a cache hit does prove storage. (Seeded change C14-1 breaks
+exactly this: it makes `cacheSet` fire for a pair that was never stored.) -/
+theorem add_ok_stored (c : Bytes → Bytes) (ops : List Op) (ho : ∀ op ∈ ops, op.honest c) (f : AddFaults) (h : Bytes) (s' : State)
+    (ha : addChain (run State.init ops) f h (c h) = .ok s') : s'.store.lookup h = some (c h) := by
+  have hk := cache_sub_known ops
+  have hH := invH_run c _ ops ho invK_init (invH_init c)
+  unfold addChain at ha
+  split at ha
+  · rename_i hhit
+    simp only [Except.ok.injEq] at ha
+    subst ha
+    simp only [Bool.and_eq_true, Bool.not_eq_true'] at hhit
+    cases hl : (run State.init ops).cache.lookup h with
+    | none => simp [hl] at hhit
+    | some v =>
+      have hm := hk.2 h v hl
+      have := hH h v hm
+      rw [← this.1]; exact this.2
+  · split at ha
+    · cases ha
+    · simp only [Except.ok.injEq] at ha
+      subst ha
+      have hs := invH_step c _ (.add h (c h)) rfl hk hH
+      exact (hs h (c h) (by simp only [step]; split <;> exact List.mem_cons_self ..)).2
+
+theorem add_fault_refused (s : State) (f : AddFaults) (h v : Bytes) (hf : f.storeAdd = true)
+    (hmiss : s.cache.lookup h = none) : addChain s f h v = .error .storage := by
+  unfold addChain; simp [hmiss, hf]
+
+/-! ## fault_is_error -/
+
+/-- faults and absences in the lookup are errors -/
+theorem getByHash_faults (check : Bool) (H : Bytes → Bytes) (s : State) (h : Bytes) :
+    (∀ f : Faults, f.cacheGet = true → ∃ e, getByHash check H s f h = .error e) ∧
+    (∀ f : Faults, f.cacheGet = false → s.cache.lookup h = none → f.storeFind = true → ∃ e, getByHash check H s f h = .error e) ∧
+    (∀ f : Faults, f.cacheGet = false → s.cache.lookup h = none → f.storeFind = false → s.store.lookup h = none →
+        getByHash check H s f h = .error .unknownHash) := by
+  refine ⟨?_, ?_, ?_⟩
+  · intro f hf; exact ⟨.cache, by unfold getByHash getByHashRaw; simp [hf, verified]⟩
+  · intro f hf hc hs; exact ⟨.storage, by unfold getByHash getByHashRaw; simp [hf, hc, hs, verified]⟩
+  · intro f hf hc hs hst; unfold getByHash getByHashRaw; simp [hf, hc, hs, hst, verified]
+
+/-- with the content-address check, whatever the lookup hands out hashes to the key it was asked for — also after
+any store damage, also from the cache -/
+theorem verified_sound (H : Bytes → Bytes) (s : State) (f : Faults) (h v : Bytes)
+    (hv : getByHash true H s f h = .ok v) : H v = h := by
+  unfold getByHash verified at hv
+  cases hr : getByHashRaw s f h with
+  | error e => simp [hr] at hv
+  | ok w =>
+    simp only [hr, Bool.true_and] at hv
+    by_cases hw : (H w != h) = true
+    · simp [hw] at hv
+    · simp only [hw, Bool.false_eq_true, if_false, Except.ok.injEq] at hv
+      subst hv; simpa using hw
+
+/-- the flag-generic form (never unfolds the regenerated flag, so it also holds for a tree without the check, where
+its last disjunct is empty): lookup error, undecodable bytes, or — where the code has the content-address check —
+bytes that do not hash to the key ⇒ error. -/
+theorem fault_is_error_of_flag (H : Bytes → Bytes) (s : State) (f : Faults) (extra : Bytes) (h : Bytes) (hne : h.length ≠ 0)
+    (hlay : (∃ pre, decPCEH extra = some (pre, h)) ∨ (decPCEH extra = none ∧ decCCH extra = some h))
+    (hbad : (∃ e, getByHashRaw s f h = .error e) ∨
+            (∃ der, getByHashRaw s f h = .ok der ∧
+              (parseDerChain der = none ∨ (Gen.getByHashVerifiesHash = true ∧ H der ≠ h)))) :
+    ∃ e, fixLogLeaf (getByHash Gen.getByHashVerifiesHash H s f) extra = .error e := by
+  apply fixLogLeaf_error_of_bad_lookup (getByHash Gen.getByHashVerifiesHash H s f) extra h hne hlay
+  unfold getByHash
+  rcases hbad with ⟨e, he⟩ | ⟨der, hg, hp | ⟨hflag, hh⟩⟩
+  · exact Or.inl ⟨e, by rw [he]; rfl⟩
+  · rw [hg]
+    by_cases hm : (Gen.getByHashVerifiesHash && H der != h) = true
+    · exact Or.inl ⟨.hashMismatch, by simp [verified, hm]⟩
+    · exact Or.inr ⟨der, by simp [verified, hm], hp⟩
+  · rw [hg]
+    refine Or.inl ⟨.hashMismatch, ?_⟩
+    have : (H der != h) = true := by simpa using hh
+    simp [verified, hflag, this]
+
+/-- **hash_check_present** (regenerated from services.go on every run): `getByHash` compares SHA-256 of what the cache
+or the storage returned with the hash it looked up, before returning or caching it
+(`fix: ctfe: issuance chains read back from cache/storage were not checked against their hash`, dc18da9). On a tree
+without the check this is `false`, this theorem and the two below stop compiling, and the harness shows the served
+wrong rows. -/
+theorem hash_check_present : Gen.getByHashVerifiesHash = true := rfl
+
+/-- **fault_is_error** (the property: "a storage or cache failure, an unknown hash or a corrupted stored chain produces an
+error response, never altered, truncated or empty chain data"). If the extra data is one of the two hash layouts with a
+non-empty hash and the lookup fails (storage or cache error, unknown hash) or hands back bytes that are not the chain
+stored under that hash — they do not hash to it, or do not decode as a chain — the reader gets an error. `H` is the
+hash function (SHA-256 in the code); rows that are the well-formed DER of another chain, of no chain, of a permuted or
+shortened chain are all covered by `H der ≠ h`. -/
+theorem fault_is_error (H : Bytes → Bytes) (s : State) (f : Faults) (extra : Bytes) (h : Bytes) (hne : h.length ≠ 0)
+    (hlay : (∃ pre, decPCEH extra = some (pre, h)) ∨ (decPCEH extra = none ∧ decCCH extra = some h))
+    (hbad : (∃ e, getByHashRaw s f h = .error e) ∨
+            (∃ der, getByHashRaw s f h = .ok der ∧ (H der ≠ h ∨ parseDerChain der = none))) :
+    ∃ e, fixLogLeaf (getByHash Gen.getByHashVerifiesHash H s f) extra = .error e := by
+  apply fault_is_error_of_flag H s f extra h hne hlay
+  rcases hbad with he | ⟨der, hg, hh | hp⟩
+  · exact Or.inl he
+  · exact Or.inr ⟨der, hg, Or.inr ⟨hash_check_present, hh⟩⟩
+  · exact Or.inr ⟨der, hg, Or.inl hp⟩
+
+/-- … and *never altered data*: a successful answer for a hash layout is the exact
+encoding of a chain whose DER form hashes to the embedded hash. -/
+theorem served_chain_hashes_to_key
+    (H : Bytes → Bytes) (s : State) (f : Faults) (h : Bytes) (cs : List Bytes) (hne : h.length ≠ 0)
+    (hi : inflate (getByHash Gen.getByHashVerifiesHash H s f) h = .ok cs) :
+    ∃ der, H der = h ∧ parseDerChain der = some cs := by
+  rcases inflate_ok _ h cs hi with ⟨h0, _⟩ | ⟨der, hg, hp⟩
+  · exact absurd h0 hne
+  · rw [hash_check_present] at hg
+    exact ⟨der, verified_sound H s f h der hg, hp⟩
+
+/-- Without the check the answer depends on cache state once a row is damaged: same store, same request, cached good
+copy ⇒ the right chain, no cached copy ⇒ whatever the row now says (here: the empty chain `30 00`, served as success). -/
+example :
+    let ix := (buildIndirect exH false exCert exChain).getD []
+    let s0 := run State.init [.add (exH []) (derChain exChain), .cacheSet (exH []) (derChain exChain), .tamper (exH []) (derChain [])]
+    fixLogLeaf (getByHash false exH s0 {}) ix = .ok ((buildDirect false exCert exChain).getD []) ∧
+    fixLogLeaf (getByHash false exH (step s0 .expire) {}) ix = .ok [0, 0, 0] := by decide
 
 /-- … and never altered, truncated or empty chain data: whatever `get` does, a successful answer is either the
 stored bytes unchanged (they were a full-chain layout) or the exact encoding of the chain decoded from what `get`
@@ -239,24 +386,73 @@ theorem fix_ok_cases (get : Bytes → Except Err Bytes) (extra x : Bytes) (h : f
           exact Or.inl ⟨h.symm, rfl, rfl, Or.inr (by simp)⟩
         | none => simp [h2] at h
 
-/-- `inflate` returns exactly the decoded chain of what `get` returned -/
-theorem inflate_ok (get : Bytes → Except Err Bytes) (h : Bytes) (cs : List Bytes) (hi : inflate get h = .ok cs) :
-    (h.length = 0 ∧ cs = []) ∨ (∃ der, get h = .ok der ∧ parseDerChain der = some cs) := by
-  unfold inflate at hi
-  by_cases h0 : h.length = 0
-  · simp only [h0, if_true, Except.ok.injEq] at hi; exact Or.inl ⟨h0, hi.symm⟩
-  · simp only [h0, if_false] at hi
-    cases hg : get h with
-    | error e => simp [hg] at hi
-    | ok der =>
-      simp only [hg] at hi
-      cases hp : parseDerChain der with
-      | none => simp [hp] at hi
-      | some c => simp only [hp, Except.ok.injEq] at hi; subst hi; exact Or.inr ⟨der, rfl, hp⟩
+/-! ## the two modes accept the same submissions -/
 
-def exH : Bytes → Bytes := fun _ => List.replicate 32 7
-def exCert : Bytes := [1, 2, 3]
-def exChain : List Bytes := [[4, 5], [6]]
+/-- what the in-backend mode accepts, the external-storage mode accepts too (for a hash the layouts can carry) — with or
+without the encoding check -/
+theorem direct_accepts_implies_indirect (check : Bool) (H : Bytes → Bytes) (isPrecert : Bool) (cert : Bytes) (chain : List Bytes) (dx : Bytes)
+    (hH : (H (derChain chain)).length ≤ 256)
+    (hd : buildDirect isPrecert cert chain = some dx) : (buildIndirectC check H isPrecert cert chain).isSome = true := by
+  unfold buildIndirectC
+  simp only [hd, Option.isNone_some, Bool.and_false, Bool.false_eq_true, if_false]
+  unfold buildIndirect
+  have hh : ∀ b : Nat × Nat, b = (0, 256) → (encVec b (H (derChain chain))).isSome = true := by
+    intro b hb; subst hb; unfold encVec; simp [hH]
+  cases isPrecert with
+  | false => simp only [Bool.false_eq_true, if_false]; unfold encCCH; exact hh _ cchHashB_eq
+  | true =>
+    simp only [if_true]
+    unfold buildDirect at hd
+    simp only [if_true] at hd
+    obtain ⟨a, _, _, ha, _, _, _⟩ := encPCE_some hd
+    unfold encPCEH
+    rw [ha]
+    have := hh _ pcehHashB_eq
+    cases hb : encVec pcehHashB (H (derChain chain)) with
+    | none => simp [hb] at this
+    | some b => rfl
+
+/-- **encoding_check_present** (regenerated from services.go on every run): the external-storage `BuildLogLeaf` refuses,
+before anything is stored, a chain whose in-backend extra data cannot be TLS-encoded
+(`fix: external issuance-chain storage refuses a chain whose extra data cannot be TLS-encoded`, 0449619). On a tree
+without the check this is `false`, this theorem and the next stop compiling, and `TestVerifC14Oversized` shows the
+poisoned range (in-backend mode 500, external-storage mode 200, the sequenced entry unreadable for good). -/
+theorem encoding_check_present : Gen.indirectBuildChecksEncoding = true := rfl
+
+/-- the flag-generic form -/
+theorem same_submissions_accepted_of_flag (hflag : Gen.indirectBuildChecksEncoding = true)
+    (H : Bytes → Bytes) (isPrecert : Bool) (cert : Bytes) (chain : List Bytes)
+    (hH : (H (derChain chain)).length ≤ 256) :
+    (buildIndirectC Gen.indirectBuildChecksEncoding H isPrecert cert chain).isSome = true ↔ (buildDirect isPrecert cert chain).isSome = true := by
+  constructor
+  · intro h
+    rw [hflag] at h
+    unfold buildIndirectC at h
+    cases hd : buildDirect isPrecert cert chain with
+    | some dx => rfl
+    | none => simp [hd] at h
+  · intro h
+    cases hd : buildDirect isPrecert cert chain with
+    | none => simp [hd] at h
+    | some dx => exact direct_accepts_implies_indirect _ H isPrecert cert chain dx hH hd
+
+/-- **same_submissions_accepted** ("for the same submission"): the two modes accept exactly the same submissions — in
+particular the external-storage mode never sequences an entry whose extra data it could not serve later. -/
+theorem same_submissions_accepted (H : Bytes → Bytes) (isPrecert : Bool) (cert : Bytes) (chain : List Bytes)
+    (hH : (H (derChain chain)).length ≤ 256) :
+    (buildIndirectC Gen.indirectBuildChecksEncoding H isPrecert cert chain).isSome = true ↔ (buildDirect isPrecert cert chain).isSome = true :=
+  same_submissions_accepted_of_flag encoding_check_present H isPrecert cert chain hH
+
+/-- without the check (the tree before 0449619) a chain with an unencodable certificate was accepted by one mode only -/
+example : (buildIndirectC false exH false exCert [[]]).isSome = true ∧ buildDirect false exCert [[]] = none ∧
+    buildIndirectC true exH false exCert [[]] = none := by decide
+
+/-! ## a failure to restore the chain is a server error at both readers -/
+
+/-- regenerated from handlers.go: `rpcGetLeavesByRange` visits every leaf of the reply, answers a `FixLogLeaf` failure on
+any of them with this status and returns the reply whole otherwise (the unit fails to extract for any other shape —
+seeded change C14-3); `rpcGetEntryAndProof` likewise. Together with `range_all_or_error` / `fault_is_error`. -/
+theorem fix_error_is_server_error : 500 ≤ Gen.rangeFixErrorStatus ∧ 500 ≤ Gen.entryFixErrorStatus := by decide
 
 /-! ## ranges: all or nothing -/
 
@@ -321,11 +517,17 @@ example : fixLogLeaf (fun _ => .ok (derChain exChain)) ((buildIndirect exH true 
     .ok ((buildDirect true exCert exChain).getD []) := by decide
 /-- an error from the lookup is an error for the reader; so are an unknown hash and a corrupted chain -/
 example : fixLogLeaf (fun _ => .error .storage) ((buildIndirect exH false exCert exChain).getD []) = .error .storage := by decide
-example : fixLogLeaf (getByHash State.init {}) ((buildIndirect exH false exCert exChain).getD []) = .error .unknownHash := by decide
+example : fixLogLeaf (getByHash false exH State.init {}) ((buildIndirect exH false exCert exChain).getD []) = .error .unknownHash := by decide
 example : fixLogLeaf (fun _ => .ok (derChain exChain ++ [0])) ((buildIndirect exH false exCert exChain).getD []) = .error .corruptChain := by decide
 /-- every operation occurs in a history the invariant theorem covers; the cached copy is served without the store -/
-example : getByHash (run State.init [.add [9] [1], .asyncCacheSet [9], .add [9] [2], .evict [8], .expire, .asyncCacheSet [9]])
+example : getByHashRaw (run State.init [.add [9] [1], .cacheSet [9] [1], .add [9] [2], .evict [8], .expire, .cacheSet [9] [1],
+      .cacheSet [9] [3], .delete [9], .tamper [7] [5]])
     { storeFind := true } [9] = .ok [1] := by decide
+/-- a submission refused by the storage; a cache hit that (in an honest history) stands for a stored chain -/
+example : (match addChain State.init { storeAdd := true } [9] [1] with | .error .storage => true | _ => false) = true := by decide
+/-- with the content-address check a wrong row is an error (`hashMismatch`), without it it is served -/
+example : fixLogLeaf (getByHash true exH (run State.init [.tamper (exH []) (derChain []), .tamper [1] [2]]) {})
+    ((buildIndirect exH false exCert exChain).getD []) = .ok [0, 0, 0] := by decide
 /-- a string that is none of the layouts is refused -/
 example : fixLogLeaf (fun _ => .error .storage) [0] = .error .unknownLayout := by decide
 /-- `0000` is a CertificateChainHash with an empty hash: re-inflated to the empty CertificateChain without a lookup -/
